@@ -222,6 +222,7 @@ def fields(ctx: Ctx, rule="R-C13-FIELDS") -> None:
               "same id, results broker", f"Job.result reads {unparse(gb[0])[:80]}", node=gb[0], instance="Job.result id")
     cp = ctx.func("repid.job.Job._construct_parameters")
     rc = [c for c in ast.walk(cp.node) if isinstance(c, ast.Call) and isinstance(c.func, ast.Attribute) and c.func.attr == "RESULT_CLASS"]
+    rc = [c for c in rc if C.utext(cp, c.func).endswith("PARAMETERS_CLASS.RESULT_CLASS")]
     ctx.require(len(rc) == 1, f"{cp.qualname}: RESULT_CLASS(...) not found")
     ctx.check(dotted(C.kw(rc[0], "id_")) == "self.result_id" and dotted(C.kw(rc[0], "ttl")) == "self.result_ttl", rule, cp,
               "RESULT_CLASS(id_=self.result_id, ttl=self.result_ttl)", "the id Job.result reads, the configured ttl",
@@ -231,11 +232,16 @@ def fields(ctx: Ctx, rule="R-C13-FIELDS") -> None:
         st = [n for n in ast.walk(ji.node) if isinstance(n, ast.Assign) and any(dotted(t) == f"self.{attr}" for t in n.targets)]
         want = {"result_ttl": ["result_ttl"], "result_id": ["result_id if isinstance(result_id, str) else uuid.uuid4().hex"],
                 "store_result": ["self._conn.results_bucket_broker is not None if store_result is None else store_result"]}[attr]
-        ctx.check(len(st) == 1 and unparse(st[0].value) in want, rule, ji, f"Job keeps {attr} as configured", want[0],
+
+        def canon(e):
+            t = C.negate_aware_ifexp(e)
+            return unparse(e) if t is None else f"{unparse(t[1])} if {unparse(t[0])} else {unparse(t[2])}"
+
+        ctx.check(len(st) == 1 and canon(st[0].value) in [canon(ast.parse(w_, mode="eval").body) for w_ in want], rule, ji, f"Job keeps {attr} as configured", want[0],
                   f"Job.__init__ stores {attr} = {unparse(st[0].value) if st else '?'}: the configured value (e.g. an explicit None = keep forever) is replaced", instance=f"Job.{attr}")
     # ... only when store_result
-    par = [n for n in ast.walk(cp.node) if isinstance(n, ast.IfExp) and any(x is rc[0] for x in ast.walk(n.body))]
-    ok = len(par) == 1 and dotted(par[0].test) == "self.store_result" and C.is_const(par[0].orelse, None)
+    par = [C.negate_aware_ifexp(n) for n in ast.walk(cp.node) if isinstance(n, ast.IfExp) and any(x is rc[0] for x in ast.walk(n))]
+    ok = len(par) == 1 and dotted(par[0][0]) == "self.store_result" and C.is_const(par[0][2], None) and any(x is rc[0] for x in ast.walk(par[0][1]))
     ctx.check(ok, rule, cp, "result settings only when store_result", "None when results are disabled",
               "Job._construct_parameters does not make the result settings conditional on store_result (None otherwise)", node=rc[0], instance="job store_result switch")
 
